@@ -36,11 +36,12 @@ impl Frame {
     fn from_spec(s: &FrameSpec) -> Frame {
         Frame {
             id: s.id,
-            plain: s.plain.to_bd(),
-            num: s.num.to_bd(),
-            opt: s.opt.as_ref().map(|d| d.to_bd()),
-            list: s.list.iter().map(|d| d.to_bd()).collect(),
-            optplain: s.optplain.as_ref().map(|d| d.to_bd()),
+            // the values travel through identity-like std-trait operations first (chosen by the frame id)
+            plain: s.plain.to_bd_via((s.id % 7) as u8),
+            num: s.num.to_bd_via((s.id / 7 % 7) as u8),
+            opt: s.opt.as_ref().map(|d| d.to_bd_via((s.id / 49 % 7) as u8)),
+            list: s.list.iter().map(|d| d.to_bd_via((s.id % 5) as u8)).collect(),
+            optplain: s.optplain.as_ref().map(|d| d.to_bd_via((s.id / 3 % 7) as u8)),
         }
     }
 }
@@ -656,6 +657,10 @@ impl C17 {
             Target::Plain => BigDecimal::deserialize(TokenDe { token }).map(Some),
             Target::OptionPlain => Option::<BigDecimal>::deserialize(TokenDe { token }),
             Target::JsonNum => bigdecimal::serde::json_num::deserialize(TokenDe { token }).map(Some),
+            Target::InPlace => {
+                let mut place = BigDecimal::new(BigInt::from(-125), 2);
+                <BigDecimal as Deserialize>::deserialize_in_place(TokenDe { token }, &mut place).map(|()| Some(place))
+            }
         });
         obs.reach(intern(&format!("token:{}", token.kind())));
         let res = match res {
@@ -965,7 +970,7 @@ impl Property for C17 {
         match rng.below(10) {
             0 | 1 => {
                 let token = gen_token(rng);
-                let target = *rng.pick(&[Target::Plain, Target::Plain, Target::OptionPlain, Target::JsonNum]);
+                let target = *rng.pick(&[Target::Plain, Target::Plain, Target::OptionPlain, Target::JsonNum, Target::InPlace]);
                 Trace::Token { token, target }
             }
             2 => Trace::SerPeer { value: gen_value(rng), human_readable: rng.chance(1, 2), sink: SinkSel::All },
